@@ -147,6 +147,109 @@ def inline_expr(u, e, depth=0):
                  (tuple(inline_expr(u, y, depth) for y in x) if isinstance(x, tuple) else x) for x in e)
 
 
+INT_MAX = {"u8": 255, "u16": 65535, "u32": 4294967295, "u64": (1 << 64) - 1, "usize": (1 << 64) - 1, "i8": 127, "i16": 32767, "i32": (1 << 31) - 1, "i64": (1 << 63) - 1}
+
+
+def arg_subst_map(args):
+    """caller-side substitution for the parameters of a local callee (see inline_expr)"""
+    arg_paths = {}
+    for i, a in enumerate(args):
+        a2 = a
+        while isinstance(a2, tuple) and a2 and a2[0] == "cast":
+            a2 = a2[4]
+        if a2[0] == "refplace":
+            arg_paths["arg%d" % (i + 1)] = a2[1]
+        elif a2[0] == "arg":
+            arg_paths["arg%d" % (i + 1)] = "arg%d" % a2[1]
+        elif a2[0] == "load":
+            arg_paths["arg%d" % (i + 1)] = a2[1]
+        else:
+            arg_paths["arg%d" % (i + 1)] = None
+    arg_paths["#vals"] = {i + 1: a for i, a in enumerate(args)}
+    return arg_paths
+
+
+def try_from_parts(e):
+    """(operand, target integer type) if e is `T::try_from(x)` / `x.try_into()` between integer types"""
+    if isinstance(e, tuple) and e and e[0] == "call" and e[1].split("::")[-1] in ("try_from", "try_into") and len(e[2]) == 1:
+        raw = str(e[3]) if len(e) > 3 else ""
+        import re as _re
+        m = _re.search(r"TryFrom<(\w+)> for (\w+)>", raw)
+        if m and m.group(2) in INT_MAX:
+            return e[2][0], m.group(2), m.group(1)
+    return None
+
+
+def ok_payload(u, e, depth=0):
+    """success value of a Result/Option-valued expression: local helpers are inlined, map_err / ok_or are looked through, a checked
+    integer conversion yields its operand (value-preserving on success); None if unknown"""
+    if not isinstance(e, tuple) or not e or depth > 6:
+        return None
+    if e[0] == "agg" and str(e[1]).split("::")[-1] in ("Ok", "Some") and e[3]:
+        return e[3][0]
+    if e[0] == "call":
+        last = e[1].split("::")[-1]
+        if last in ("map_err", "ok_or", "ok_or_else", "or_else") and e[2]:
+            return ok_payload(u, e[2][0], depth + 1)
+        tf = try_from_parts(e)
+        if tf:
+            return ("cast", "IntToInt", tf[2], tf[1], tf[0])
+        if len(e) > 3 and e[3] in u.bodies:
+            r = ret_expr(u, e[3])
+            if r is not None:
+                return ok_payload(u, _subst(r, arg_subst_map(e[2])), depth + 1)
+    return None
+
+
+def resolve_try(u, e, depth=0):
+    """rewrite `branch(X).as Continue.0` (the value of `X?`) into the success value of X where that is known"""
+    if not isinstance(e, tuple) or not e or depth > 40:
+        return e
+    if e[0] == "proj" and e[1][0] == "proj" and str(e[1][2]).startswith("as Continue") and e[1][1][0] == "call" and e[1][1][1].endswith("::branch") and e[1][1][2]:
+        v = ok_payload(u, e[1][1][2][0])
+        if v is not None:
+            return resolve_try(u, v, depth + 1)
+    return tuple(resolve_try(u, x, depth + 1) if isinstance(x, tuple) and x and isinstance(x[0], str) else
+                 (tuple(resolve_try(u, y, depth + 1) if isinstance(y, tuple) else y for y in x) if isinstance(x, tuple) else x) for x in e)
+
+
+def helper_rejections(u, call):
+    """for a call of a local Result-returning helper: [(error variant, predicate expression in the caller's terms, taken-token)] for
+    every way the helper itself rejects - explicit guarded `return Err(V)` exits and the checked-conversion idiom
+    `T::try_from(x).map_err(|_| V)` (fails iff x > T::MAX for unsigned sources); None if the helper has an exit that is not understood"""
+    from .. import flow as _flow, guards as _guards
+    if not (isinstance(call, tuple) and call and call[0] == "call" and len(call) > 3 and call[3] in u.bodies):
+        return None
+    hb = u.bodies[call[3]]
+    ap = arg_subst_map(call[2])
+    out = []
+    for ex in _flow.exits(hb):
+        if ex["kind"] == "ok":
+            continue
+        if ex["kind"] == "err":
+            v = sym.expr_rv(hb, ex["node"]["rv"])
+            var = str(v[3][0][1]).split("::")[-1] if v[0] == "agg" and v[3] and v[3][0][0] == "agg" else None
+            gs = _guards.guards_of(hb, ex["bb"])
+            if var is None or not gs:
+                return None
+            s_, d, tk = gs[-1]
+            out.append((var, _subst(d, ap), tk))
+            continue
+        if ex["kind"] == "deleg":
+            r = ret_expr(u, call[3])
+            if r is not None and r[0] == "call" and r[1].split("::")[-1] == "map_err" and len(r[2]) == 2 and r[2][1][0] == "agg" and str(r[2][1][1]).startswith("closure "):
+                tf = try_from_parts(r[2][0])
+                cn = [k for k in u.bodies if mir.norm(k) == mir.norm(str(r[2][1][1])[len("closure "):])]
+                if tf and len(cn) == 1 and tf[2].startswith("u"):
+                    cv = sym.expr_local(u.bodies[cn[0]], 0)
+                    if cv[0] == "agg":
+                        out.append((str(cv[1]).split("::")[-1], ("bin", "Gt", _subst(tf[0], ap), ("const", INT_MAX[tf[1]], tf[2])), ("ne", ["0"])))
+                        continue
+            return None
+        return None
+    return out
+
+
 def _subst(e, arg_paths):
     if not isinstance(e, tuple) or not e:
         return e
@@ -158,6 +261,8 @@ def _subst(e, arg_paths):
         v0 = (arg_paths.get("#vals") or {}).get(e[1])
         if v0 is not None and v0[0] == "arg":
             return v0                     # parameter handed through by value
+        if v0 is not None and v0[0] == "load" and len(v0) > 2 and str(v0[2]) in INT_MAX:
+            return v0                     # a scalar loaded by the caller and passed by value
         if arg_paths.get(k):
             return ("refplace", arg_paths[k], "")
         v = (arg_paths.get("#vals") or {}).get(e[1])
